@@ -9,11 +9,11 @@ except ImportError:      # replays run under the repository's interpreter, witho
     z3 = None
 
 from . import frontend
-from .api import Ty, Contract
+from .api import Ty, Contract, Dependent
 from .interp import Interp, PyRaise, Closure, BoundMethod
 from .loops import _call_pred, _param_names
 from .path import PathState, PathAbort, RetryPath, Unsupported
-from .values import SBool, SInt, Sym, SOpt, SChoice, to_z3, wrap
+from .values import SBool, SInt, Sym, SOpt, SChoice, contains_sym, to_z3, wrap
 
 MAX_PATHS = 4000
 
@@ -61,7 +61,7 @@ def _clause_env(bound, ghosts, extra):
 def apply_contract(interp, c, func, args, kwargs):
     """Modular call: assert the precondition, havoc, assume the postcondition."""
     st = interp.st
-    st.used_contracts.add(c.qname)
+    st.used_contracts.add(getattr(c, 'key', c.qname))
     if c.returns is None and c.yields is None:
         from .api import _returns_a_value
         if c.returns_value is None:
@@ -103,26 +103,59 @@ def apply_contract(interp, c, func, args, kwargs):
     old = None
     if c.old is not None:
         old = _call_pred(interp, c.old, env)
+        env = dict(env, old=old)      # `when` conditions of exceptional outcomes may mention the pre-state
     if c.event is not None:
         st.emit(c.event, dict(bound))
-    if c.modifies:
-        # frame of the callee: the named objects / fields are havocked (in place), then the postcondition is assumed
-        for name, ty in c.modifies.items():
-            parts = name.split('.')
-            obj = bound[parts[0]]
+    # frame: ghost state the callee may change (entries 'ghost:<key>' of `modifies`) is havoced;
+    # what is known about it afterwards is what the (exceptional) postconditions say
+    short = c.qname.rpartition(':')[2]
+    for key, ty in (c.modifies.items() if isinstance(c.modifies, dict) else ()):
+        if hasattr(ty, 'havoc_in_place'):
+            # an object whose (ghost) state the callee changes: havocked in place, identity kept
+            path = key.split('.')
+            obj = bound[path[0]]
             if isinstance(obj, (SOpt, SChoice)):
                 obj = interp.resolve(obj)
-            if hasattr(ty, 'havoc_in_place'):
-                for a in parts[1:]:
-                    obj = interp.getattr(obj, a)
-                ty.havoc_in_place(interp, obj, 'mod.%s' % name)
-            else:
-                if len(parts) < 2:
-                    raise Unsupported('contract %s: modifies entry %r must name a field or be havocked in place'
-                                      % (c.qname, name))
-                for a in parts[1:-1]:
-                    obj = interp.getattr(obj, a)
-                interp.setattr(obj, parts[-1], ty.make(interp, 'mod.%s' % name) if isinstance(ty, Ty) else ty)
+            for a in path[1:]:
+                obj = interp.getattr(obj, a)
+            ty.havoc_in_place(interp, obj, '%s@%s' % (key, short))
+            continue
+        if isinstance(ty, Dependent):
+            v = ty.make_for_call(interp, '%s@%s' % (key, short), env)
+        else:
+            v = ty.make(interp, '%s@%s' % (key, short)) if isinstance(ty, Ty) else ty
+        if key.startswith('ghost:'):
+            st.ghost[key[6:]] = v
+        else:
+            # object field reachable from a parameter: 'self._x', 'self._a._b' (private names written mangled)
+            path = key.split('.')
+            if path[0] not in bound or len(path) < 2:
+                raise Unsupported('modifies entry %r of %s: unknown base' % (key, c.qname))
+            obj = bound[path[0]]
+            for a in path[1:-1]:
+                obj = interp.getattr(obj, a)
+            if isinstance(obj, (SOpt, SChoice)):
+                obj = interp.resolve(obj)
+            interp.setattr(obj, path[-1], v)
+
+    if c.modifies and not isinstance(c.modifies, dict):
+        _havoc_modified(interp, c, bound)
+
+    def raise_(exc_cls, spec):
+        exc = _make_exc(interp, exc_cls, spec, env)
+        ens = spec.get('ensures')
+        if ens is not None and 'trace' not in _param_names(ens):
+            # exceptional postcondition: assumed of the exception the callee raises
+            env_x = _clause_env(bound, ghosts, {'exc': exc, 'old': old, 'trace': st.trace, 'ghost': st.ghost})
+            try:
+                st.assume(interp.truth(_call_pred(interp, ens, env_x)))
+            except PyRaise as e:
+                raise Unsupported('exceptional postcondition of %s raised %r when assumed at a call site'
+                                  % (c.qname, e.exc))
+        if c.event is not None:
+            st.emit(c.event + ':raised', dict(bound), exc)
+        raise PyRaise(exc)
+
     # exceptional outcomes
     outcomes = ['return']
     for exc_cls, spec in c.raises.items():
@@ -136,35 +169,109 @@ def apply_contract(interp, c, func, args, kwargs):
             if when is not None:
                 w = interp.truth(_call_pred(interp, when, env))
                 if interp.st.fork(w):
-                    exc = _make_exc(interp, exc_cls, spec, env)
-                    raise PyRaise(exc)
+                    raise_(exc_cls, spec)
         nondet = [o for o in outcomes[1:] if o[2].get('when') is None]
         if nondet:
             k = st.choose(1 + len(nondet))
             if k > 0:
                 _, exc_cls, spec = nondet[k - 1]
-                exc = _make_exc(interp, exc_cls, spec, env)
-                raise PyRaise(exc)
-    result = c.returns.make(interp, 'ret.%s' % c.qname.rpartition(':')[2]) if isinstance(c.returns, Ty) else None
+                raise_(exc_cls, spec)
+    if isinstance(c.returns, Dependent):
+        result = c.returns.make_for_call(interp, 'ret.%s' % short, env)
+    else:
+        result = c.returns.make(interp, 'ret.%s' % short) if isinstance(c.returns, Ty) else None
     if c.yields is not None:
         # a generator used through its contract: all its items at once (its effects happen at the call)
         from .models import SIter
         ys = c.yields.make(interp, 'yielded.%s' % c.qname.rpartition(':')[2])
         ghosts = dict(ghosts, yielded=ys)
-        result = SIter(ys, 0)
+        result = SIter(ys, 0, eager=True)
     env2 = _clause_env(bound, ghosts, {'result': result, 'old': old, 'trace': st.trace, 'ghost': st.ghost})
     for name, clause in c.ensures.items():
-        if isinstance(clause, tuple):       # (clause, 'effect') : executed for its effect on ghost state
+        if isinstance(clause, tuple):
+            if clause[1] == 'check-only':   # proved of the function, not assumed at call sites
+                continue
+            # (clause, 'effect') : executed for its effect on ghost state
             _call_pred(interp, clause[0], env2)
             continue
-        st.assume(interp.truth(_call_pred(interp, clause, env2)))
+        if 'trace' in _param_names(clause):
+            # describes the events *during* the call: says nothing about the caller's trace (check-only)
+            continue
+        try:
+            n_dec = len(st.decisions)
+            v = interp.truth(_call_pred(interp, clause, env2))
+            if v is False and not st.scopes and len(st.decisions) == n_dec:
+                raise Unsupported('postcondition %r of %s is constantly false for the havoced result at a call site '
+                                  '(identity with a fresh object? use a Dependent shape or a check-only clause)'
+                                  % (name, c.qname))
+            st.assume(v)
+        except PyRaise as e:
+            # an ill-defined clause must not look like an exception of the code under verification
+            raise Unsupported('postcondition %r of %s raised %r when assumed at a call site'
+                              % (name, c.qname, e.exc))
+    if c.event is not None:
+        st.emit(c.event + ':returned', dict(bound), result)
     return result
+
+
+def _havoc_modified(interp, c, bound):
+    """Call site of a contract with `modifies`: the named mutable lists / iterators get arbitrary new contents
+    (in place: aliases see the same object); what is known afterwards is what `ensures` says."""
+    from .mlist import MList
+    from .models import SIter
+    st = interp.st
+    k = st.counters.get('call!modifies', 0)
+    st.counters['call!modifies'] = k + 1
+    tag = 'call%d' % k
+    for path in c.modifies:
+        parts = path.split('.')
+        if parts[0] not in bound:
+            raise Unsupported('modifies %r of %s: no such parameter' % (path, c.qname))
+        obj = bound[parts[0]]
+        owner = None
+        ty = c.params.get(parts[0])
+        for a in parts[1:]:
+            owner = obj
+            obj = interp.getattr(obj, a)
+            ty = getattr(ty, 'fields', {}).get(a)
+        if isinstance(obj, (SOpt, SChoice)):
+            obj = interp.resolve(obj)
+        if type(obj) is list and owner is not None and not contains_sym(obj, 0) and hasattr(ty, 'shape'):
+            # a concrete list held in a field of an object (e.g. Partitioning([], [], [])): it becomes a symbolic
+            # mutable list in that field.  Sound only if the field is the single reference to the list object:
+            # checked (references: the field, the variable `obj`, the argument of getrefcount).
+            import sys
+            if sys.getrefcount(obj) > 3:
+                raise Unsupported('contract %s modifies %r: the concrete list in that field is referenced from '
+                                  'elsewhere too' % (c.qname, path))
+            from .mlist import from_concrete
+            m = from_concrete(interp, obj, path) if obj else MList(interp, st.fresh_name(path), ty.shape())
+            m.is_deque = getattr(ty, 'deque', False)
+            interp.setattr(owner, parts[-1], m)
+            obj = m
+        if isinstance(obj, MList):
+            obj.havoc(interp, tag)
+        elif isinstance(obj, SIter):
+            p0 = to_z3(obj.pos) if not isinstance(obj.pos, int) else z3.IntVal(obj.pos)
+            p1 = st.fresh_int('%s.pos@%s' % (obj.xs.uid, tag))
+            st.assume(z3.And(p1 >= p0, z3.Or(p1 <= obj.xs.length, p1 == p0)))
+            obj.pos = wrap(p1)
+        elif isinstance(obj, list):
+            raise Unsupported('contract %s modifies %r, but the caller passes a concrete list: declare the '
+                              'caller\'s local in its contract (locals=dict(name=MListOf(...)))' % (c.qname, path))
+        else:
+            raise Unsupported('modifies %r of %s: neither a symbolic mutable list nor an iterator' % (path, c.qname))
 
 
 def _make_exc(interp, exc_cls, spec, env):
     mk = spec.get('make')
     if mk is not None:
         return _call_pred(interp, mk, env)
+    shape = spec.get('shape')       # Ty of the exception object as callers see it
+    if isinstance(shape, Dependent):
+        return shape.make_for_call(interp, 'exc.%s' % getattr(exc_cls, '__name__', 'exc'), env)
+    if isinstance(shape, Ty):
+        return shape.make(interp, 'exc.%s' % getattr(exc_cls, '__name__', 'exc'))
     if isinstance(exc_cls, Ty):
         return exc_cls.make(interp, 'exc')
     try:
@@ -193,6 +300,7 @@ class FunctionReport:
         self.unknown_feasibility = 0
         self.feasibility_queries = 0
         self.slow_queries = []
+        self.uncovered = []        # 'line N: <source>' of return/raise statements no feasible path reached
         self.deps_sha = None
 
 
@@ -206,6 +314,12 @@ def verify_function(reg, c, budget_paths=MAX_PATHS):
     rep.sha = info.source_sha
     worklist = [[]]
     seen = 0
+    import ast as _ast
+    from .loops import _walk_own
+    # exits of the function's own body (nested functions that are only defined, not called, do not count)
+    exits = {n.lineno for n in _walk_own(info.node) if isinstance(n, (_ast.Return, _ast.Raise))} \
+        if not isinstance(info.node, _ast.Lambda) else set()
+    covered = set()
     while worklist:
         prefix = worklist.pop()
         seen += 1
@@ -216,13 +330,20 @@ def verify_function(reg, c, budget_paths=MAX_PATHS):
         st = PathState(prefix, stats)
         interp = Interp(st, reg)
         interp.fn_name = c.qname
+        interp.cover_file = info.filename
         try:
             _run_path(interp, reg, c, func, rep)
             rep.paths += 1
+            covered |= st.reached
         except PathAbort:
             rep.aborted_paths += 1
         except RetryPath as r:
             worklist.append(r.prefix)
+            # alternatives discovered BEFORE the retry site are replayed from the prefix on the re-run,
+            # i.e. never re-discovered: keep them (those after the site will be found again)
+            for p in st.pending:
+                if len(p) < len(r.prefix):
+                    worklist.append(p)
             _cleanup(st)
             continue
         except Unsupported as u:
@@ -247,6 +368,20 @@ def verify_function(reg, c, budget_paths=MAX_PATHS):
         rep.unknown_feasibility += st.unknown_feasibility
         rep.feasibility_queries += stats.get('feasibility_queries', 0)
         rep.slow_queries.extend(stats.get('slow_queries', []))
+    if c.cover and not rep.unsupported and not rep.errors:
+        # reachability cover (DESIGN 2.4): every return / raise of the function must lie on a feasible
+        # path, otherwise assumptions (preconditions, assumed postconditions of callees) cut it off and
+        # the obligations on that exit were never generated
+        try:
+            lines = frontend.parse_file(info.filename)[0].splitlines()
+        except Exception:
+            lines = []
+        allowed = c.cover if isinstance(c.cover, (tuple, list)) else ()
+        for ln in sorted(exits - covered):
+            text = lines[ln - 1].strip() if 0 < ln <= len(lines) else ''
+            if any(a in text for a in allowed):
+                continue
+            rep.uncovered.append('line %d: %s' % (ln, text))
     rep.wall = time.time() - t0
     rep.deps_sha = _deps_sha(reg, c, rep)
     return rep
@@ -305,6 +440,7 @@ def _run_path(interp, reg, c, func, rep):
     old = None
     if c.old is not None:
         old = _call_pred(interp, c.old, env)
+        env = dict(env, old=old)      # `when` conditions of exceptional outcomes may mention the pre-state
         reg.ghost_env['old'] = old        # visible to loop invariants
     # positional order of the real function
     code = func.__code__
@@ -322,6 +458,7 @@ def _run_path(interp, reg, c, func, rep):
     kw = {n: args[n] for n in names[code.co_argcount:] if n in args}
     outcome = None
     info = frontend.funcinfo_of(func)
+    mlists_before = _mutable_lists_of(args)
     yseq = None
     if info.is_generator:
         from .gens import YSeq
@@ -339,6 +476,13 @@ def _run_path(interp, reg, c, func, rep):
     key = 'return' if outcome[0] == 'return' else type(outcome[1]).__name__
     rep.outcomes[key] = rep.outcomes.get(key, 0) + 1
     fname = c.qname
+    # frame: a symbolic mutable list reachable from the parameters that the function changed must be declared in
+    # `modifies` (call sites keep everything else they know about such a list)
+    mlists_after = _mutable_lists_of(args)
+    for path, (m, version) in mlists_before.items():
+        now = mlists_after.get(path)
+        if (now is None or now[0] is not m or now[1] != version) and path not in c.modifies:
+            st.oblige('%s : frame[%s is not modified]' % (fname, path), False, {'kind': 'frame'})
     if outcome[0] == 'return':
         env2 = _clause_env(args, ghosts, {'result': outcome[1], 'old': old, 'trace': st.trace, 'ghost': st.ghost})
         # a declared deterministic `when` exception must have been raised
@@ -350,7 +494,9 @@ def _run_path(interp, reg, c, func, rep):
                           interp.not_(w), {'kind': 'exc-post'})
         for name, clause in c.ensures.items():
             if isinstance(clause, tuple):
-                continue
+                if clause[1] != 'check-only':
+                    continue
+                clause = clause[0]
             _oblige_clause(interp, '%s : ensures[%s]' % (fname, name), clause, env2, {'kind': 'post'})
     else:
         exc = outcome[1]
@@ -390,6 +536,29 @@ def _run_path(interp, reg, c, func, rep):
     if c.raises_only is not None and outcome[0] == 'return':
         st.oblige('%s : raises_only(%s)' % (fname, ', '.join(_exc_name(e) for e in list(c.raises) + list(c.may_raise)
                                                             + list(c.raises_only))), True, {'kind': 'raises-only'})
+
+
+def _mutable_lists_of(args):
+    """{access path: (MList, version)} of the symbolic mutable lists reachable from the arguments through the
+    fields of repository objects"""
+    from .mlist import MList
+    from .interp import _is_repo_class
+    out = {}
+
+    def walk(v, path, depth):
+        if isinstance(v, MList):
+            out[path] = (v, v.version)
+            return
+        if depth <= 0 or isinstance(v, (Sym, str, int, float, type(None), list, tuple, dict)):
+            return
+        d = getattr(v, '__dict__', None)
+        if isinstance(d, dict) and _is_repo_class(type(v)):
+            for k, x in d.items():
+                walk(x, '%s.%s' % (path, k), depth - 1)
+
+    for name, v in args.items():
+        walk(v, name, 3)
+    return out
 
 
 def _shape_of_ty(ty):
